@@ -20,6 +20,11 @@ at which a party can be parked or a fault injected; behaviour is unchanged):
             accessory was in at a change boundary (a kill at that instant leaves exactly that file);
   twin      two drivers whose state files are siblings in one directory, saving concurrently, one through a
             failing pluggable encoder: both files right at the end, nothing else left in the directory;
+  lifecycle a driver that owns its loop and thread pool (no loop= argument) run through the public start()/stop();
+            the pool is sized by the driver for a small board (os.cpu_count() = 1, 2, 4) and a bridge carries
+            0 .. workers+3 accessories with a blocking run(), so a pairing change's save may sit in the pool's
+            queue when stop() is called; pair / unpair / config_changed on the loop, with and without time to
+            settle; judged after start() has returned and the pool's threads have ended: file == memory;
   natural   the same path free-running, with seeded jitter in the wrappers;
   public    every operation that changes the persisted state, through the real request handler or
             the public driver method that schedules its own save (pair-setup completion, add-pairing
@@ -1896,6 +1901,203 @@ def twin_stream(ctx: Ctx, model_cases: list):
         twin_case(ctx, {"name": f"twin-{n}", "ops": [opsA, opsB], "fail_every": rng.choice([0, 2, 3])})
 
 
+# --------------------------------------------------------------------------- stream: lifecycle
+
+
+def lifecycle_case(ctx: Ctx, scn: dict, verbose=False) -> None:
+    """A driver that owns its event loop and its thread pool (no loop= argument), run through the public
+    start() / stop().  The pool is sized by the driver from os.cpu_count() (scn["cpus"]: the board the
+    accessory runs on); scn["blockers"] accessories of a bridge have an ordinary blocking run() (the
+    documented alternative to `async def run`), each occupying a worker until its stop() is called and it
+    has wound down (scn["wind_down"] seconds) - so the pool may be saturated when a pairing change submits
+    its save, and the save job then sits in the pool's queue when stop() is called.  Pairing changes are made
+    on the loop (as the request handler does), scn["settle"] says after which of them the pool is given time
+    to run what it can.  Judged after start() has returned (the driver has stopped) and the pool's threads
+    have ended: the state file equals the in-memory identity and pairing state."""
+    if getattr(ctx, "hung", False):
+        return
+    ad, _, _ = _pyhap()
+    from pyhap.accessory import Accessory, Bridge
+
+    st = ctx.stats
+    d = tempfile.mkdtemp(prefix="c15l-")
+    path = os.path.join(d, STATE_FILE)
+    replay = {"kind": "lifecycle", "scenario": scn}
+    started = [0]
+    slock = threading.Lock()
+
+    class Blocking(Accessory):
+        def __init__(self, *a, **kw):
+            super().__init__(*a, **kw)
+            self._bye = threading.Event()
+
+        def run(self):  # an ordinary blocking method: runs in a worker of the driver's pool
+            with slock:
+                started[0] += 1
+            self._bye.wait(HANG_S)
+            time.sleep(scn["wind_down"])
+
+        async def stop(self):
+            self._bye.set()
+
+    class Quiet(Bridge):
+        def setup_message(self):
+            pass
+
+    real_cpu = os.cpu_count
+    os.cpu_count = lambda: scn["cpus"]
+    app_loop = app_pool = None
+    try:
+        kw = dict(
+            persist_file=path, address="127.0.0.1", port=51840, mac="AA:BB:CC:DD:EE:10", pincode=b"031-45-154",
+            async_zeroconf_instance=_FakeAdvertiser(),
+        )
+        if scn.get("app_loop"):
+            # the application supplies the loop and its default pool (sized like the driver would) and stops both itself
+            from concurrent.futures import ThreadPoolExecutor
+
+            app_loop = asyncio.new_event_loop()
+            app_pool = ThreadPoolExecutor()
+            app_loop.set_default_executor(app_pool)
+            kw["loop"] = app_loop
+        driver = ad.AccessoryDriver(**kw)
+    finally:
+        os.cpu_count = real_cpu
+    try:
+        driver.http_server = _StubServer()
+        saves: List[Any] = []  # the futures of the background saves (diagnostics for the failure message)
+        orig_rie = driver.loop.run_in_executor
+
+        def run_in_executor(executor, fn, *args):
+            f = orig_rie(executor, fn, *args)
+            if getattr(fn, "__name__", "") == "persist":
+                saves.append(f)
+            return f
+
+        driver.loop.run_in_executor = run_in_executor
+        bridge = Quiet(driver, "Bridge")
+        for i in range(scn["blockers"]):
+            bridge.add_accessory(Blocking(driver, f"Sensor {i}"))
+        driver.add_accessory(bridge)
+        workers = min(32, scn["cpus"] + 4)
+        if app_loop is None:
+            t = threading.Thread(target=driver.start, daemon=True)
+            t.start()
+        else:
+            t = threading.Thread(target=app_loop.run_forever, daemon=True)
+            t.start()
+            driver.start_service()
+        want = min(scn["blockers"], workers)
+        deadline = time.monotonic() + HANG_S
+        while started[0] < want and time.monotonic() < deadline:
+            time.sleep(0.005)
+        if started[0] < want:
+            raise Hung("the accessories' run() methods were not started")
+        trace = []
+        for i, op in enumerate(scn["ops"]):
+            done = threading.Event()
+            box: Dict[str, Any] = {}
+
+            def on_loop(op=op, done=done, box=box):
+                try:
+                    if op["op"] == "pair":
+                        driver.pair(op["id"].encode(), bytes.fromhex(op["key"]), bytes([op["perm"]]))
+                    elif op["op"] == "unpair":
+                        if uuid.UUID(op["id"]) in driver.state.paired_clients:
+                            driver.unpair(uuid.UUID(op["id"]))
+                except Exception as ex:  # noqa: BLE001
+                    box["ex"] = ex
+                finally:
+                    done.set()
+
+            if op["op"] == "config_changed":  # from an application thread; saves synchronously
+                th = threading.Thread(target=driver.config_changed, daemon=True)
+                th.start()
+                th.join(HANG_S)
+            else:
+                driver.loop.call_soon_threadsafe(on_loop)
+                if not done.wait(HANG_S):
+                    raise Hung("a pairing change handed to the loop was not run")
+            trace.append(op["op"])
+            if i in scn.get("settle", []):
+                time.sleep(0.05)
+        if app_loop is None:
+            driver.stop()
+            t.join(HANG_S)
+            if t.is_alive():
+                raise Hung("driver.start() did not return after stop()")
+            if driver.executor is not None:
+                driver.executor.shutdown(wait=True)  # whatever the pool still runs may finish; nothing is revived
+        else:
+            try:
+                asyncio.run_coroutine_threadsafe(driver.async_stop(), app_loop).result(HANG_S)
+            except Exception as ex:  # noqa: BLE001
+                raise Hung(f"async_stop() did not return ({type(ex).__name__})") from None
+            app_pool.shutdown(wait=True)  # the application lets its pool finish what it was given
+            app_loop.call_soon_threadsafe(app_loop.stop)
+            t.join(HANG_S)
+            if not t.is_alive():
+                app_loop.close()
+        mem = ref.canon_state(driver.state)
+        which, why = judge_file(path, [("memory", mem)])
+        saturated = scn["blockers"] >= workers
+        st.hit("op", "lifecycle-run")
+        st.hit("outcome", f"lifecycle[pool={'saturated' if saturated else 'has-idle-workers'}]:file=" + ("memory" if which else "STALE"))
+        st.case(["lifecycle", scn], saturated)
+        if verbose:
+            print(f"pool of {workers} workers, {scn['blockers']} blocking accessories; operations {trace}; stop(); start() returned;",
+                  "file == memory" if which else "STALE: " + why)
+        if which is None:
+            ctx.fail(
+                "C15:file-stale-after-driver-stopped",
+                f"a driver {'on an application-supplied loop and pool' if app_loop is not None else 'owning its loop and pool'} ({workers} workers for {scn['cpus']} cpu(s), {scn['blockers']} accessories with a "
+                f"blocking run()); operations {trace} on the loop, then stop(); after start() had returned and the pool's "
+                f"threads had ended the state file is not the in-memory state "
+                f"({sum(1 for f in saves if f.cancelled())} of {len(saves)} submitted background saves were cancelled, "
+                f"{sum(1 for f in saves if not f.done())} never finished): {why}",
+                replay,
+            )
+    except Hung as ex:
+        ctx.hung = True
+        ctx.fail("C15:save-blocks-forever", f"lifecycle: {ex}", replay)
+    finally:
+        shutil.rmtree(d, ignore_errors=True)
+
+
+def lifecycle_stream(ctx: Ctx):
+    rng = ctx.rng
+    st = ctx.stats
+    A = mk_ops(rng, 0, 1)[1][0]
+    B = mk_ops(rng, 0, 1)[1][0]
+    cases = []
+    # the pool dimension: idle workers / exactly full / more blocking accessories than workers (queue non-empty)
+    for cpus, blockers in ((1, 0), (1, 4), (1, 5), (1, 8), (2, 6), (2, 9)):
+        cases.append({"cpus": cpus, "blockers": blockers, "wind_down": 0.05, "ops": [A], "settle": []})
+    cases.append({"cpus": 1, "blockers": 7, "wind_down": 0.1, "ops": [A, B], "settle": []})
+    cases.append({"cpus": 1, "blockers": 7, "wind_down": 0.05, "ops": [A, {"op": "unpair", "id": A["id"]}], "settle": [0]})
+    cases.append({"cpus": 1, "blockers": 6, "wind_down": 0.05, "ops": [A, {"op": "config_changed"}, B], "settle": []})
+    cases.append({"cpus": 1, "blockers": 6, "wind_down": 0.0, "ops": [A], "settle": []})
+    cases.append({"cpus": 1, "blockers": 6, "wind_down": 0.05, "ops": [A], "settle": [], "app_loop": True})
+    cases.append({"cpus": 1, "blockers": 0, "wind_down": 0.0, "ops": [A, B], "settle": [], "app_loop": True})
+    if _lite(ctx):
+        cases = cases[2:5]
+    for n in range(ctx.n(4, 60)):
+        cpus = rng.choice([1, 1, 2, 4])
+        workers = min(32, cpus + 4)
+        _, ops = mk_ops(rng, 0, rng.randrange(1, 4))
+        if rng.random() < 0.3:
+            ops.insert(rng.randrange(len(ops) + 1), {"op": "config_changed"})
+        cases.append({
+            "cpus": cpus, "blockers": rng.choice([0, workers - 1, workers, workers + 1, workers + 3]),
+            "wind_down": rng.choice([0.0, 0.02, 0.08]), "ops": ops,
+            "settle": [i for i in range(len(ops)) if rng.random() < 0.3],
+            "app_loop": rng.random() < 0.25,
+        })
+    for scn in cases:
+        lifecycle_case(ctx, dict(scn, name="lifecycle"))
+    st.sample({"stream": "lifecycle", "example": {k: v for k, v in cases[0].items() if k != "ops"}, "meaning": "driver owning loop + pool, pool sized for `cpus`, `blockers` accessories with a blocking run(); pairing change on the loop; stop(); judged after start() returned"})
+
+
 # --------------------------------------------------------------------------- stream: natural
 
 
@@ -2551,7 +2753,8 @@ def run(ctx: Ctx):
         "before the save completed / a fault actually fired / a job was run while another was parked mid-save / "
         "more than one background job / an operation changed the in-memory state. midread: a save parked before each "
         "attribute read x {pair, unpair, last-admin sweep}, a change parked before each store x a concurrent save, random "
-        "mixes; twin: two drivers in one directory. Distinct by scenario + crash point / fault list / command list."
+        "mixes; twin: two drivers in one directory; lifecycle: own loop + pool sized for 1/2/4 cpus x 0..workers+3 blocking "
+        "accessories x pairing changes, then stop(), judged after start() returned. Distinct by scenario + crash point / fault list / command list."
     )
     model_cases: list = []
     try:
@@ -2567,6 +2770,7 @@ def run(ctx: Ctx):
         schedule_stream(ctx, model_cases)
         midread_stream(ctx, model_cases)
         twin_stream(ctx, model_cases)
+        lifecycle_stream(ctx)
         natural_stream(ctx)
         public_stream(ctx)
         _run_models(ctx, model_cases)
@@ -2589,6 +2793,7 @@ def search(ctx: Ctx):
                 crash_scenario(ctx, scn, sink)
         schedule_stream(ctx, sink)
         midread_stream(ctx, sink)
+        lifecycle_stream(ctx)
         natural_stream(ctx)
         public_stream(ctx)
         fault_stream(ctx, sink)
@@ -2611,6 +2816,8 @@ def replay(ctx: Ctx, r):
         public_case(ctx, r["scenario"], r["ops"], verbose=True)
     elif kind == "twin":
         twin_case(ctx, r["scenario"], verbose=True)
+    elif kind == "lifecycle":
+        lifecycle_case(ctx, r["scenario"], verbose=True)
     elif kind == "natural":
         for _ in range(20):  # timing dependent: try a few times
             if not natural_case(ctx, r["scenario"], r["ops"], r["jitter"], r["gaps"], verbose=True):
